@@ -10,7 +10,7 @@ CORR_TARGETS = ["theories/C07/Corr.vo"]
 TARGETS = ["theories/Properties/C07.vo"]
 PROPERTIES_FILE = "theories/Properties/C07.v"
 IMPL = "harness.props.c07_impl"
-SHARD = 250
+SHARD = 800
 HARD_TIMEOUT = 60
 EXHAUSTIVE = {"quick": False, "thorough": False}
 
@@ -19,15 +19,20 @@ RULE = (
     "(lazy-seq arities nested, into [], sequence, transduce conj, eduction) on an instrumented "
     "iterator that counts pulls, with a probe transducer last in the pipeline that counts "
     "completion calls. Observables per form: elements (canonical; vectors and seqs identified), "
-    "pulls and completion calls (transducing forms), or exception class. Pipelines: every "
-    "single stage with every parameter of the tables (depth 1), and depth 2 (quick) / 2-3 "
-    "(thorough) compositions chosen by the PRNG among the type-correct ones (cat only on "
-    "collections). Inputs: all sequences over {nil,false,0,1,2,:a} up to length 2 (quick) / 4 "
-    "(thorough) for every depth-1 pipeline, PRNG samples of lengths 3-4 (quick) / 5-6 (thorough) "
-    "and of lengths up to 12 over a wider universe (true, 3, :b, the two sentinel keywords), "
-    "collection-valued inputs for pipelines starting with cat, and unbounded sources "
-    "(limit=true: pulling past the listed prefix raises) for early-terminating pipelines; "
-    "plus (take n (iterate f x)) for finite maps f over the universe. "
+    "pulls and completion calls (transducing forms), or exception class. "
+    "Depth 1: each of the 139 (function, parameter) stages of the tables; all input sequences "
+    "over {nil,false,0,1,2,:a} up to length 2 (quick) / 4 (thorough) for 27 primary stages "
+    "(at least one per listed function), PRNG samples (lengths 1-6, and 3-12 over a wider "
+    "universe with true, 3, :b and the two sentinel keywords) for every stage; cat on "
+    "collection-valued inputs. Depth 2 (quick: 160 PRNG pipelines x 4 inputs; thorough: 3000 x 12) "
+    "and depth 3 (thorough: 3000 x 6) among the type-correct compositions (cat only on "
+    "collections), plus a fixed family of 41 stateful x early-terminating pairs (quick: 14 PRNG "
+    "inputs each, thorough: all inputs up to length 4) and 6 pairs whose second stage stops inside "
+    "what the first hands it (30 / 600 PRNG inputs each). Unbounded sources (limit=true: pulling "
+    "past the listed prefix raises) for pipelines containing take/take-while and for "
+    "pipelines that never stop. (take n (iterate f x)) for the constant maps and PRNG finite "
+    "maps f over the universe. One pipeline case in 25 goes through compiled Lisp source, the "
+    "others through direct calls of the same basilisp.core function objects. "
     "A case is non-trivial when the input is non-empty; distinct = distinct JSON encoding.")
 TRUSTED = [
     "iterator-seq over a Python iterator pulls one element per realised cell (measured: no read-ahead)",
@@ -157,28 +162,37 @@ def pipe_case(pipe, inp, limit=False):
     return {"k": "pipe", "pipe": pipe, "input": inp, "limit": limit}
 
 
-def cases(tier, rng):
+# one parameter choice per listed function: these get the exhaustive small inputs
+PRIMARY = [["map", 3], ["map", 14], ["map-indexed", 0], ["filter", 0], ["remove", 1], ["keep", 14], ["keep", 0],
+           ["keep-indexed", 2], ["keep-indexed", 3], ["take", 0], ["take", 1], ["take", 2], ["take-while", 10],
+           ["take-while", 7], ["take-nth", 2], ["drop", 1], ["drop-while", 1], ["interpose", kw("s")],
+           ["interpose", None], ["partition-all", 1], ["partition-all", 2], ["partition-by", 0],
+           ["partition-by", 6], ["distinct"], ["dedupe"], ["mapcat", 0], ["mapcat", 1]]
+
+
+def _gen(tier, rng):
     quick = tier == "quick"
-    # 1. every single stage, exhaustive small inputs + samples
+    # 1. every single stage: exhaustive small inputs for one or two parameters per function,
+    #    PRNG samples for every parameter of the tables
     ex_len = 2 if quick else 4
     small = list(seqs(U0, ex_len))
     for st in STAGES:
-        d0 = 1 if st == ["cat"] else 0
-        if d0 == 0:
-            for inp in small:
-                yield pipe_case([st], inp)
-            for _ in range(12 if quick else 150):
-                yield pipe_case([st], rand_input(rng, U0, ex_len + 1, ex_len + 2))
-            for _ in range(3 if quick else 40):
-                yield pipe_case([st], rand_input(rng, U0_WIDE, 3, 12))
-        else:
+        if st == ["cat"]:
             for inp in seqs(U1, 2 if quick else 3):
                 yield pipe_case([st], inp)
             for _ in range(10 if quick else 200):
                 yield pipe_case([st], rand_input(rng, U1, 3, 8))
+            continue
+        if st in PRIMARY:
+            for inp in small:
+                yield pipe_case([st], inp)
+        for _ in range(6 if quick else 120):
+            yield pipe_case([st], rand_input(rng, U0, 1, ex_len + 2))
+        for _ in range(2 if quick else 40):
+            yield pipe_case([st], rand_input(rng, U0_WIDE, 3, 12))
     # 2. compositions
-    for depth, count, per in ((2, 420 if quick else 4000, 5 if quick else 25),
-                              (3, 0 if quick else 5000, 12)):
+    for depth, count, per in ((2, 160 if quick else 3000, 4 if quick else 12),
+                              (3, 0 if quick else 3000, 6)):
         for _ in range(count):
             d0 = 1 if rng.random() < 0.15 else 0
             pipe = rand_pipe(rng, depth, d0)
@@ -192,39 +206,56 @@ def cases(tier, rng):
                 else:
                     inp = rand_input(rng, uni, 0, 2)
                 yield pipe_case(pipe, inp)
-    # 3. depth-2 exhaustive on a fixed family (stateful x early termination), all inputs <= 3 / 4
+    # 3. depth-2 exhaustive on a fixed family (stateful x early termination)
     fam = [[a, b] for a in (["partition-all", 2], ["partition-by", 0], ["interpose", kw("s")], ["dedupe"],
                             ["mapcat", 0], ["take-nth", 2])
            for b in (["take", 1], ["take", 2], ["take-while", 10])]
     fam += [[b, a] for a, b in fam if typed([b, a])]
     fam += [[["partition-all", 2], ["cat"]], [["partition-by", 0], ["cat"]], [["map", 2], ["cat"]],
             [["partition-all", 2], ["partition-all", 2]], [["mapcat", 0], ["partition-all", 3]]]
+    # pairs in which the second stage stops in the middle of what the first one hands it
+    special = [[["interpose", 0], ["take-while", 10]], [["interpose", None], ["take-while", 7]],
+               [["partition-by", 0], ["take-while", 13]], [["partition-by", 8], ["take-while", 12]],
+               [["mapcat", 0], ["take-while", 10]], [["partition-all", 2], ["take-while", 12]]]
+    for pipe in special:
+        for _ in range(30 if quick else 600):
+            yield pipe_case(pipe, rand_input(rng, [0, 1, 2, 2, None, False], 2, 6))
     for pipe in fam:
         if not typed(pipe):
             continue
-        for inp in seqs(U0, 2 if quick else 4, 0):
-            yield pipe_case(pipe, inp)
         if quick:
-            for _ in range(10):
-                yield pipe_case(pipe, rand_input(rng, U0, 3, 5))
+            for _ in range(14):
+                yield pipe_case(pipe, rand_input(rng, U0, 0, 5))
+        else:
+            for inp in seqs(U0, 4, 0):
+                yield pipe_case(pipe, inp)
     # 4. unbounded sources: pipelines with an early-terminating stage
-    for _ in range(350 if quick else 6000):
+    for _ in range(260 if quick else 5000):
         depth = rng.choice((1, 2, 2, 3) if not quick else (1, 2, 2))
         d0 = 1 if rng.random() < 0.1 else 0
         pipe = rand_pipe(rng, depth, d0, must_stop=True)
         inp = rand_input(rng, U1 if d0 else U0, 1, 10)
         yield pipe_case(pipe, inp, True)
-    for _ in range(40 if quick else 500):       # pipelines that never stop: limit must be hit
+    for _ in range(25 if quick else 400):       # pipelines that never stop: the limit must be hit
         pipe = rand_pipe(rng, rng.choice((1, 2)), 0)
         yield pipe_case(pipe, rand_input(rng, U0, 1, 6), True)
     # 5. iterate with finite maps over the universe
     for x in U0:
         for dflt in (None, False, 1):
             yield {"k": "iterate", "n": 4, "table": [], "dflt": dflt, "x": x}
-    for _ in range(60 if quick else 1500):
+    for _ in range(40 if quick else 1500):
         table = [[k, rng.choice(U0)] for k in U0]
         yield {"k": "iterate", "n": rng.randint(0, 7), "table": table, "dflt": rng.choice(U0),
                "x": rng.choice(U0)}
+
+
+def cases(tier, rng):
+    """Every 25th pipeline case additionally goes through compiled Lisp source instead of direct
+    calls of the basilisp.core function objects (same observables)."""
+    for i, c in enumerate(_gen(tier, rng)):
+        if c["k"] == "pipe" and i % 25 == 7:
+            c = dict(c, via="src")
+        yield c
 
 
 # ---- Gallina ---------------------------------------------------------------------------
